@@ -185,33 +185,72 @@ def rule_all_members(prog, fixture=False):
     r = RuleResult("R-C10-4", "at the end of a gzip member the decompressor stops only if no input remains; "
                    "otherwise it resets the inflater and continues", floor=0 if fixture else 1)
     for fn in prog.fnby("write_decompressed_data", required=not fixture):
-        g = Guards(fn)
-        resets = [n for n in fn.walk() if n.get("k") == "CallExpr" and notpl(n.get("q") or "") == "inflateReset"]
         key = "%s::%s::members" % (fn.relfile(), fn.qn)
-        if not resets:
+        # where is inflateReset called: here, or in a helper called from here
+        sites = []     # (function holding the reset, reset node, call node in fn or None)
+        for n in fn.walk():
+            if n.get("k") == "CallExpr" and notpl(n.get("q") or "") == "inflateReset":
+                sites.append((fn, n, None))
+            elif is_call(n) and n.get("fn"):
+                for t in prog.call_targets(fn, n):
+                    for m in t.walk():
+                        if m.get("k") == "CallExpr" and notpl(m.get("q") or "") == "inflateReset":
+                            sites.append((t, m, n))
+        if not sites:
             r.add(key, "%s:%d" % (fn.relfile(), fn.line), False,
                   "the inflater is never reset after Z_STREAM_END: only the first member of a multi-member gzip file "
                   "is decompressed and the rest of the image is silently missing")
             continue
+        g = Guards(fn)
         ok = False
-        for rs in resets:
-            cs = g.cmps(rs) or []
-            at_end = any(rel == "==" and 1 in (folded(l), folded(rr)) for l, rel, rr in cs)     # zerr == Z_STREAM_END
-            more = any(rel == "!=" and -1 in (folded(l), folded(rr)) for l, rel, rr in cs)      # next != EOF
-            more = more or any(rel in ("!=", ">") and 0 in (folded(l), folded(rr)) and
-                               any(x.get("k") == "MemberExpr" and x.get("n") == "avail_in" for e in (l, rr) for x in walk(e))
-                               for l, rel, rr in cs)
-            # and the loop variable is set back so the loop continues
+        why = []
+        for holder, rs, via in sites:
+            gh = g if holder is fn else Guards(holder)
+            cs_reset = gh.cmps(rs) or []
+            # (a) input remains at the reset: next != EOF  or  avail_in != 0
+            more = any(rel == "!=" and -1 in (folded(l), folded(rr)) for l, rel, rr in cs_reset) or \
+                any(rel in ("!=", ">") and 0 in (folded(l), folded(rr)) and
+                    any(x.get("k") == "MemberExpr" and x.get("n") == "avail_in" for e in (l, rr) for x in walk(e))
+                    for l, rel, rr in cs_reset)
+            # (b) a member has just ended: zerr == Z_STREAM_END holds at the reset / at the call of the helper
+            at = rs if via is None else via
+            at_end = any(rel == "==" and 1 in (folded(l), folded(rr)) for l, rel, rr in (g.cmps(at) or []))
+            if via is not None and not at_end:
+                # `zerr == Z_STREAM_END && helper(...)`: the helper call is the right operand of that &&
+                for a in fn.ancestors(via):
+                    if a.get("k") == "BinaryOperator" and a.get("op") == "&&":
+                        for f in atomise(a["c"][0], True):
+                            if f[0] == "C" and f[2] == "==" and 1 in (folded(f[1]), folded(f[3])):
+                                at_end = True
+            # (c) the loop goes on: the status variable is set back to Z_OK where the reset happened
             cont = False
-            blk = fn.where().get(rs["i"])
-            if blk:
-                for e in flow.element_nodes(fn, blk[0]):
+            if via is None:
+                blk = fn.where().get(rs["i"])
+                if blk:
+                    cont = any(e.get("k") == "BinaryOperator" and e.get("op") == "=" and folded(e["c"][1]) == 0
+                               for e in flow.element_nodes(fn, blk[0]))
+            else:
+                # on the helper's true result
+                for e in fn.walk():
                     if e.get("k") == "BinaryOperator" and e.get("op") == "=" and folded(e["c"][1]) == 0:
-                        cont = True
-            if at_end and more and cont:
+                        for atom, truth in (g.truths(e) or []):
+                            if truth and strip_all(atom) is via or (truth and same_expr(atom, via)):
+                                cont = True
+                # and the helper reports true only after resetting
+                rets_true = [m for m in holder.walk() if m.get("k") == "ReturnStmt" and m.get("c") and folded(m["c"][0]) == 1]
+                dom = holder.cfg.dominators()
+                rpos = holder.where().get(rs["i"])
+                for m in rets_true:
+                    mpos = holder.where().get(m["i"])
+                    if not (rpos and mpos and rpos[0] in dom.get(mpos[0], set())):
+                        cont = False
+            if more and at_end and cont:
                 ok = True
-        r.add(key, fn.loc(resets[0]), ok, "reset and continue while input remains" if ok else
-              "inflateReset is not performed exactly when a member has ended and input remains")
+            else:
+                why.append("input-remains=%s member-ended=%s loop-continues=%s" % (more, at_end, cont))
+        r.add(key, fn.loc(sites[0][1]) if sites[0][0] is fn else "%s:%d" % (fn.relfile(), fn.line), ok,
+              "reset and continue while input remains" if ok else
+              "inflateReset is not performed exactly when a member has ended and input remains (%s)" % "; ".join(why))
     return r
 
 
